@@ -88,6 +88,10 @@ ASSUMPTIONS = [
     "input_unchanged is true by construction in a functional model (tables are values); on the implementation it is "
     "checked by testing only",
     "operations other than the eight non-summary ones are outside the model (validate returns Unmodelled)",
+    "tables given as tsv file paths: Model.read_table models pd.read_csv(sep=tab, keep_default_na=False, "
+    "na_values=',null') on the fragment where a column is numeric iff all its cells are canonical integers; the cell "
+    "text ',null', floats, quoting, blank lines and '+1'-style numbers are outside the fragment; the backup-manager "
+    "path translation of get_data_file is not exercised",
     "the model's tables are positional (no row labels); that the implementation's frames are labelled 0..n-1 after "
     "every operation -- which later operations rely on -- is an implementation-side oracle clause (index-contract, "
     "recorded by wrapping Dispatcher.post_proc_data), exercised by every ordered pair of operations",
@@ -132,6 +136,9 @@ def table_sx(t):
 def sx_line(case, fixes=None):
     fx = fixes or IMPL_FIXES
     f = [1 if fx[k] else 0 for k in FIX_KEYS]
+    if case.get("file_tables"):
+        raw = [[[C.cps(c) for c in t["cols"]], [[["s", C.cps(x)] for x in r] for r in t["rows"]]] for t in case["file_tables"]]
+        return C.to_sx([f, jsx(case["ops"]), raw, "file"])
     return C.to_sx([f, jsx(case["ops"]), [table_sx(t) for t in case["tables"]]])
 
 
@@ -208,8 +215,28 @@ def validator():
     return _validator
 
 
-def run_seq(ops, tables):
-    """One Dispatcher object, the tables in order.  Returns (ctor_exn or None, results)."""
+def write_tsv(path, t):
+    with open(path, "w", encoding="utf-8", newline="") as fp:
+        fp.write("\t".join(t["cols"]) + "\n")
+        for r in t["rows"]:
+            fp.write("\t".join(r) + "\n")
+
+
+def infer_table(t):
+    """What reading the tsv text gives on the modelled fragment: a column of integers only is numeric, every
+    other column keeps the text of its cells (independent restatement of Model.read_table)."""
+    cols, rows = t["cols"], t["rows"]
+
+    def is_int(x):
+        y = x[1:] if x.startswith("-") else x
+        return y != "" and all("0" <= ch <= "9" for ch in y)
+    numeric = [all(is_int(r[j]) for r in rows) for j in range(len(cols))]
+    return {"cols": list(cols), "rows": [[int(x) if numeric[j] else x for j, x in enumerate(r)] for r in rows]}
+
+
+def run_seq(ops, tables, file_tables=None):
+    """One Dispatcher object, the tables in order (as DataFrames, or -- file_tables -- as tsv file paths).
+    Returns (ctor_exn or None, results)."""
     from hed.tools.remodeling.dispatcher import Dispatcher
     try:
         disp = Dispatcher(ops, data_root=None, backup_name=None)
@@ -226,13 +253,29 @@ def run_seq(ops, tables):
         index_log.append(list(res_.index) == list(range(len(res_))))
         return res_
     disp.post_proc_data = post
-    for t in tables:
+    scratch = C.scratch_dir(prefix="hedverif-c17-") if file_tables else None
+    try:
+        return None, _run_tables(disp, tables, file_tables, scratch, index_log)
+    finally:
+        if scratch:
+            import shutil
+            shutil.rmtree(scratch, ignore_errors=True)
+
+
+def _run_tables(disp, tables, file_tables, scratch, index_log):
+    out = []
+    for k, t in enumerate(tables):
         df = make_df(t)
         df0 = df.copy(deep=True)
         r = {}
         del index_log[:]
+        designator = df
+        if file_tables:
+            designator = os.path.join(scratch, f"sub-0{k}_task-x_events.tsv")
+            write_tsv(designator, file_tables[k])
+            before = open(designator, "rb").read()
         try:
-            res = disp.run_operations(df)
+            res = disp.run_operations(designator)
             r["ok"] = canon_df(res)
             r["index_final"] = list(res.index) == list(range(len(res)))
         except Exception as e:  # noqa
@@ -241,8 +284,10 @@ def run_seq(ops, tables):
             r["op_index"] = failing_op_index(e, disp)
         r["index_ok"] = list(index_log)
         r["input_same"] = bool(df.equals(df0)) and list(df.columns) == list(df0.columns)
+        if file_tables:
+            r["input_same"] = open(designator, "rb").read() == before
         out.append(r)
-    return None, out
+    return out
 
 
 def impl_one(case):
@@ -257,7 +302,7 @@ def impl_one(case):
     if msgs:
         return r
     ops_run = copy.deepcopy(ops)
-    ctor, res = run_seq(ops_run, case["tables"])
+    ctor, res = run_seq(ops_run, case["tables"], case.get("file_tables"))
     r["ctor"] = ctor
     r["results"] = res
     r["params_after"] = ops_run
@@ -616,6 +661,8 @@ def oracle(case, r, res):
     ops = case["ops"]
     rep = {"case": {"ops": ops, "tables": case["tables"]}}
     c = rep["case"]
+    if case.get("file_tables"):
+        c["file_tables"] = case["file_tables"]
     if "validate_exn" in r:
         res.report("validator-raises", c, r["validate_exn"])
         return
@@ -641,6 +688,8 @@ def oracle(case, r, res):
     multiset = order_sensitive(ops)
     for k, (t, out) in enumerate(zip(case["tables"], r["results"])):
         ck = {"ops": ops, "tables": case["tables"], "position": k}
+        if case.get("file_tables"):
+            ck["file_tables"] = case["file_tables"]
         if not out["input_same"]:
             res.report("input-unchanged", ck, "input DataFrame differs after run_operations")
         fr = r["fresh"][k]
@@ -654,7 +703,10 @@ def oracle(case, r, res):
         # order independence / repeatability against a fresh dispatcher
         same = ("ok" in out) == ("ok" in fr) and (
             tables_equal(out["ok"], fr["ok"], bool(multiset)) if "ok" in out else out["exn"] == fr["exn"])
-        if not same and multiset is not None:
+        if not same and multiset is not None and case.get("file_tables"):
+            res.report("file-path-equals-dataframe", ck,
+                       f"table given as a tsv file path: {str(out)[:170]} same table as a DataFrame: {str(fr)[:170]}")
+        elif not same and multiset is not None:
             res.report("order-independent", ck, f"in sequence: {str(out)[:150]} fresh: {str(fr)[:150]}",
                        fid=known("C17-F1" if mutated else None))
         # documented meaning / runs to completion, judged on the fresh run (history-free)
@@ -1169,6 +1221,139 @@ def remap_cases(rng, n):
     return out
 
 
+NA_SPELLINGS = ["None", "NA", "N/A", "null", "nan", "NaN", "NULL", "", "#N/A", "-", "none", "<NA>", NA]
+ODD_NAMES = ["trial-type", "resp time", "v1.x", "a/b", "Größe", "x_y", "q?"]
+
+
+def gen_text_table(rng, odd_names=False):
+    """A table as TEXT (what a tsv file holds): ordinary words, integers, n/a and the spellings that pandas would
+    read as missing by default; at least two columns (a line that is empty is not a row)."""
+    pool = (ODD_NAMES if odd_names else []) + COLS
+    cols = rng.sample(pool, rng.randint(2, 5))
+    if odd_names and not any(c in ODD_NAMES for c in cols):
+        cols[0] = rng.choice(ODD_NAMES)
+    kinds = {c: (rng.choice(["int", "int", "intna"]) if c in ("onset", "duration")
+                 else rng.choice(["word", "na-ish", "na-ish", "int", "few"])) for c in cols}
+    rows = []
+    for _ in range(rng.randint(1, 5)):
+        row = []
+        for c in cols:
+            k = kinds[c]
+            if k == "int":
+                row.append(str(rng.randint(0, 9)))
+            elif k == "intna":
+                row.append(NA if rng.random() < 0.3 else str(rng.randint(0, 9)))
+            elif k == "few":
+                row.append(rng.choice(["x", "x", "stop", "X", NA]))
+            elif k == "word":
+                row.append(rng.choice(["1", "2", "10", "a", "b", "x", "X", "stop", "-3", NA]))
+            else:
+                row.append(rng.choice(NA_SPELLINGS + ["x", "1"]))
+        rows.append(row)
+    return {"cols": cols, "rows": rows}
+
+
+def file_cases(rng, n):
+    """The table handed to run_operations as a tsv FILE PATH (Dispatcher.get_data_file), 1-3 files through one
+    dispatcher; the reference is the same table as a DataFrame through a fresh dispatcher and the documented
+    meaning.  Cells include every spelling pandas reads as missing by default: only n/a means n/a."""
+    out = []
+    names = list(FLAGS)
+    for _ in range(n):
+        raws = [gen_text_table(rng) for _ in range(3)]
+        typed = [infer_table(t) for t in raws]
+        pool = list(typed[0]["cols"])
+        ops = []
+        passthrough = rng.random() < 0.5
+        for _ in range(rng.randint(1, 3)):
+            nm = rng.choice(["remove_rows", "remove_columns", "rename_columns", "reorder_columns"]) if passthrough \
+                else rng.choice(names)
+            ops.append(gen_op(rng, nm, pool))
+            sp = spec_run(ops, typed[0])
+            if sp[0] == "ok":
+                pool = list(sp[1]["cols"]) or pool
+        order = rng.choice(ORDERS)
+        out.append({"ops": ops, "tables": [typed[i] for i in order], "file_tables": [raws[i] for i in order],
+                    "expect_valid": spec_valid(ops), "kind": "file-path"})
+    return out
+
+
+def odd_name_cases(rng, n):
+    """Column names (in tables and in parameters) with characters outside [A-Za-z0-9_]: hyphen, blank, dot,
+    slash, non-ASCII letters.  These lists are valid and must run."""
+    out = []
+    for _ in range(n):
+        raw = gen_text_table(rng, odd_names=True)
+        t = infer_table(raw)
+        pool = list(t["cols"])
+        ops = []
+        for _ in range(rng.randint(1, 2)):
+            nm = rng.choice(["remove_rows", "remove_columns", "rename_columns", "reorder_columns", "factor_column",
+                             "remap_columns", "merge_consecutive"])
+            o = gen_op(rng, nm, pool)
+            if nm == "rename_columns" and rng.random() < 0.6:
+                k = rng.choice(pool)
+                o["parameters"]["column_mapping"] = {k: rng.choice([x for x in ODD_NAMES if x not in pool] or ["zz"])}
+            ops.append(o)
+            sp = spec_run(ops, t)
+            if sp[0] == "ok":
+                pool = list(sp[1]["cols"]) or pool
+        as_file = rng.random() < 0.4
+        c = {"ops": ops, "tables": [t], "expect_valid": spec_valid(ops), "kind": "odd-names"}
+        if as_file:
+            c["file_tables"] = [raw]
+        out.append(c)
+    return out
+
+
+ODD_KEYS = ["match-columns", "copy columns", "v1.comment", "a/b", "it's", "", "ключ", 'q"uote', "x y-z.w", " ",
+            "ignore-missing", "column names", "{}", "%s", "{operation_index}", "new\nline", "tab\tkey"]
+
+
+def respell(k, rng):
+    r = rng.choice([k.replace("_", "-"), k.replace("_", " "), k.replace("_", "."), k + "-x", " " + k, k.upper() + "!"])
+    return r if r != k else k + rng.choice(["-x", " 2", ".bak"])
+
+
+def malformed_key_cases(rng, n):
+    """Lists that fail validation because of an unexpected / misspelled KEY, at every level where keys occur (the
+    operation dictionary, its parameters, a split_rows new_events entry), the key drawn from spellings with
+    characters outside [A-Za-z0-9_].  The clause is: reported with messages, never an exception."""
+    out = []
+    names = list(FLAGS)
+    t = fixed_tables()[0]
+    for _ in range(n):
+        nm = rng.choice(names + ["split_rows"])
+        good = gen_op(rng, nm, ["a", "b", "c", "onset", "duration"], {k: True for k in FLAGS[nm]})
+        o = copy.deepcopy(good)
+        level = rng.choice(["op", "params", "params", "respell-param", "respell-param", "event", "respell-op"])
+        if level == "op":
+            o[rng.choice(ODD_KEYS)] = rng.choice([1, "x", None, [], {}])
+        elif level == "params":
+            o["parameters"][rng.choice(ODD_KEYS)] = rng.choice([True, "x", 3, [], {}])
+        elif level == "respell-param":
+            k = rng.choice(list(o["parameters"]))
+            o["parameters"][respell(k, rng)] = o["parameters"].pop(k)
+        elif level == "respell-op":
+            k = rng.choice(["operation", "description", "parameters"])
+            o[respell(k, rng)] = o.pop(k)
+        else:
+            if nm != "split_rows":
+                continue
+            ev = rng.choice(list(o["parameters"]["new_events"]))
+            e = o["parameters"]["new_events"][ev]
+            if rng.random() < 0.5:
+                e[rng.choice(ODD_KEYS)] = rng.choice([["a"], 1, "x"])
+            else:
+                k = rng.choice(list(e))
+                e[respell(k, rng)] = e.pop(k)
+        lst = [o]
+        if rng.random() < 0.4:
+            lst = [gen_op(rng, "remove_columns", ["a"])] + lst
+        out.append({"ops": lst, "tables": [t], "expect_valid": False, "fault": f"key:{nm}:{level}", "kind": "malformed-key"})
+    return out
+
+
 def malformed_cases(rng, n):
     """Lists that violate the JSON specification in exactly one known way."""
     out = []
@@ -1357,7 +1542,9 @@ def run(tier, seed, res, model_ok=True, proof_ok=True):
     cases = corpus() + corpus_f5(random.Random(0)) + systematic_cases(rng, per) + random_cases(rng, nrand) \
         + malformed_cases(rng, nbad) + drop_cases(rng, 3 if tier == "quick" else 20) \
         + chain_cases(rng, 5 if tier == "quick" else 40, 200 if tier == "quick" else 3000) \
-        + remap_cases(rng, 250 if tier == "quick" else 3000)
+        + remap_cases(rng, 250 if tier == "quick" else 3000) \
+        + file_cases(rng, 250 if tier == "quick" else 3000) + odd_name_cases(rng, 120 if tier == "quick" else 1500) \
+        + malformed_key_cases(rng, 300 if tier == "quick" else 4000)
     with Pool(int(C.JOBS)) as pool:
         impl = pool.map(impl_one, cases, chunksize=50)
 
@@ -1386,7 +1573,10 @@ def run(tier, seed, res, model_ok=True, proof_ok=True):
                 # C17-F5 is a pandas/hash-seed effect the model deliberately does not contain
                 if i in flagged:
                     continue
-                res.violation("correspondence", {"ops": case["ops"], "tables": case["tables"]}, d, no_input=True)
+                cc = {"ops": case["ops"], "tables": case["tables"]}
+                if case.get("file_tables"):
+                    cc["file_tables"] = case["file_tables"]
+                res.violation("correspondence", cc, d, no_input=True)
 
     hist = {}
     for c in cases:
@@ -1403,7 +1593,9 @@ def run(tier, seed, res, model_ok=True, proof_ok=True):
                 f"optional parameters x {per} draws of (tables, processing order of 1-3 tables through ONE dispatcher) + "
                 f"{nrand} random lists of 1-3 operations + {nbad} lists with one seeded specification fault + every ordered "
                 "pair of operations (and sampled triples) built from the intermediate tables on event tables + remap_columns "
-                "maps with repeated (also 1 / \"1\") keys at the beginning/middle/end among keys of the table; "
+                "maps with repeated (also 1 / \"1\") keys at the beginning/middle/end among keys of the table + tables "
+                "given as tsv FILE PATHS with every default-NA spelling as cell text + column names and malformed keys "
+                "with non-word characters at every key level; "
                 "non-trivial = specification-valid list and at least one table with rows",
         "samples": [cases[0], cases[len(cases) // 2], cases[-1]],
         "exhaustive": False,
@@ -1419,7 +1611,8 @@ def replay(payload):
     if not case or "ops" not in case:
         print("no concrete input in replay:", str(payload.get("detail", ""))[:500])
         return 1
-    case = {"ops": case["ops"], "tables": case["tables"], "expect_valid": None}
+    case = {"ops": case["ops"], "tables": case["tables"], "expect_valid": None,
+            **({"file_tables": case["file_tables"]} if case.get("file_tables") else {})}
     r = impl_one(case)
     res = C.Result(PROP)
     res.known_ids = {}
